@@ -870,6 +870,7 @@ func runExtra(rep *lib.Report, tier string, foreignIDs []string) {
 	x := newXrep(rep)
 	famHist(x, tier)
 	famUserGroup(x)
+	famLoopInner(x, tier)
 	famMultiInstance(x, tier, foreignIDs)
 	if w, err := newStackWorld(); err != nil {
 		setIncomplete(rep, "audit families: "+err.Error())
